@@ -20,8 +20,14 @@ PY
 out=$(/verif/bin/verifcheck -repo $wt -no-evidence -prop $props | grep -v "^  discharged")
 if echo "$out" | grep -q "^VIOLATION"; then
   mkdir -p /verif/mutants; git -C $wt diff > /verif/mutants/$name.patch
+  [ "${EXPECT:-}" = silent ] && echo "BENIGN $name: FALSE ALARM"
   echo "MUT $name: CAUGHT: $(echo "$out" | grep '^  violated' | head -2 | cut -c1-230)"
 else
-  echo "MUT $name: MISSED"; echo "$out" | tail -2
+  if [ "${EXPECT:-}" = silent ]; then
+    mkdir -p /verif/benign; git -C $wt diff > /verif/benign/$name.patch
+    echo "BENIGN $name: silent (as required)"
+  else
+    echo "MUT $name: MISSED"; echo "$out" | tail -2
+  fi
 fi
 git -C $wt checkout -q -- .
